@@ -16,5 +16,6 @@ def run(ctx):
     g3.validation_table(g)
     g3.parse_result_shape(g)
     g3.exception_contract(g)
+    g3.loop_assigned_locals(g)
     runner.run_g1(ctx, ["variational._damp", "variational._rescale", "util._constrain_ages"])
     runner.bounded_if_present(ctx)
